@@ -252,10 +252,13 @@ func (t *Tree) Set(k, v uint64) {
 	}
 	root := t.set(1, k, v)
 	if root.isFull() {
-		right := t.split(1)
-		left := t.newNode(root.bits())
-		// Re-read the root as the underlying buffer for tree might have changed during split.
+		bits := root.bits()
+		rightID := t.split(1).pageID()
+		left := t.newNode(bits)
+		// Re-read the root and the right node as the underlying buffer for tree might have changed
+		// during split, or while allocating the left node.
 		root = t.node(1)
+		right := t.node(rightID)
 		copy(left[:keyOffset(maxKeys)], root)
 		left.setNumKeys(root.numKeys())
 
